@@ -6,7 +6,8 @@ usage: mutate.py <file-in-repo> <func name as in source, e.g. 'ProcessAfterUpdat
 import re, subprocess, sys, os, shutil
 f, fname, pat = sys.argv[1:4]
 recv = sys.argv[4] if len(sys.argv) > 4 else ''
-path = '/repo/' + f
+REPO = os.environ.get('MUT_REPO', '/repo')
+path = REPO + '/' + f
 src = open(path).read()
 lines = src.split('\n')
 start = None
@@ -36,7 +37,7 @@ for i in range(start + 1, end):
     if re.match(r'^return err$', s): mutants.append((i, l.replace('return err', 'return nil'), 'return nil'))
     if s == 'continue': mutants.append((i, l.replace('continue', 'break'), 'continue->break'))
     if s == 'break': mutants.append((i, l.replace('break', 'continue'), 'break->continue'))
-env = dict(os.environ, GOFLAGS='-mod=mod', GOPROXY='off', GOSUMDB='off', GOTOOLCHAIN='local')
+env = dict(os.environ, GOFLAGS='-mod=mod', GOPROXY='off', GOSUMDB='off', GOTOOLCHAIN='local', VERIF_REPO=REPO)
 pkg = './' + os.path.dirname(f) + '/'
 bak = '/tmp/mutate.bak.%d' % os.getpid()
 shutil.copy(path, bak)
@@ -45,15 +46,15 @@ try:
     for n, (i, nl, what) in enumerate(mutants):
         ml = list(lines); ml[i] = nl
         open(path, 'w').write('\n'.join(ml))
-        if subprocess.call(['go', 'build', pkg], cwd='/repo', env=env, stdout=subprocess.DEVNULL, stderr=subprocess.DEVNULL) != 0:
+        if subprocess.call(['go', 'build', pkg], cwd=REPO, env=env, stdout=subprocess.DEVNULL, stderr=subprocess.DEVNULL) != 0:
             res.append((n, i + 1, what, 'nocompile')); continue
-        p = subprocess.run(['/verif/bin/govc', 'vc', '-t', '10', pat], capture_output=True, text=True)
+        p = subprocess.run(['/verif/bin/govc', 'vc', '-t', '10', pat], capture_output=True, text=True, env=env)
         out = p.stdout + p.stderr
         m = re.search(r'(\d+) not discharged', out)
         killed = ('ENGINE-ERROR' in out) or (m and int(m.group(1)) > 0) or not m
         if killed:
             res.append((n, i + 1, what, 'killed')); continue
-        t = subprocess.run(['go', 'test', '-count=1', '-timeout', '300s', pkg], cwd='/repo', env=env, capture_output=True, text=True)
+        t = subprocess.run(['go', 'test', '-count=1', '-timeout', '300s', pkg], cwd=REPO, env=env, capture_output=True, text=True)
         res.append((n, i + 1, what, 'SURVIVED (suite %s): %s' % ('passes' if t.returncode == 0 else 'fails', nl.strip()[:110])))
 finally:
     shutil.copy(bak, path); os.remove(bak)
